@@ -46,7 +46,7 @@ def shards(tier, seed):
     sh += [("reqpath",), ("ports",), ("symbols",), ("epathopts",)]
     sh += [("tags", i) for i in range(16)]
     sh += [("route-history", i) for i in range(3)]
-    sh += [("upload-paths", pn, pers) for pn in ("P3", "P4", "P2") for pers in ("v20", "v32")]
+    sh += [("upload-paths", pn, pers) for pn in ("P3", "P4", "P2") for pers in ("v20", "v32")] + [("upload-paths", "P3", "m800"), ("upload-paths", "P1", "m800")]
     return sh
 
 
@@ -347,10 +347,19 @@ def check_upload_paths(rep, pn, pers):
         for tag, detail in t.events[n_ev:]:
             if tag.startswith("C09"):
                 rep.violation("upload/target-flagged", f"{pn}/{pers}: {tag}: {detail}", {"kind": "upload-paths", "project": pn, "pers": pers})
+        # the connection path of the Forward Open is the driver's route: backplane slot 0 by default, nothing for a Micro800
+        want_route = [] if pers == "m800" else [(1, b"\x00")]
+        for c in t.connections.values():
+            if list(c.route) != want_route:
+                rep.violation("upload/forward-open-route", f"{pn}/{pers}: Forward Open connection path routes along {list(c.route)!r}, the driver's route is {want_route!r}", {"kind": "upload-paths", "project": pn, "pers": pers})
         missing = (progs | {None}) - asked
         if o != ("ok", True) or missing:
             rep.violation("upload/scope-not-addressed", f"{pn}/{pers}: open() -> {o!r:.80}; scopes never addressed: {sorted(map(str, missing))}", {"kind": "upload-paths", "project": pn, "pers": pers})
+        n_ev2 = len(t.events)
         call(d.close)
+        for tag, detail in t.events[n_ev2:]:
+            if tag.startswith("C09"):
+                rep.violation("upload/target-flagged", f"{pn}/{pers}: {tag}: {detail}", {"kind": "upload-paths", "project": pn, "pers": pers})
     rep.sample({"upload_paths": pn, "personality": pers, "programs": sorted(progs)})
 
 
